@@ -242,7 +242,15 @@ func genCases(seed uint64, n int, thorough bool) []Case {
 	if thorough {
 		cleanLen = 9
 	}
+	kk := 0
 	for _, s := range allStrings("ab./", cleanLen) {
+		if !thorough && len(s) == cleanLen {
+			// the longest strings: one quarter per run, chosen by the seed
+			kk++
+			if kk%4 != int(seed%4) {
+				continue
+			}
+		}
 		add(Case{Stream: "clean", Op: "clean", S: s})
 	}
 	// path.Join on pairs and triples of short strings.
@@ -310,7 +318,7 @@ func genCases(seed uint64, n int, thorough bool) []Case {
 	for _, p := range cpats {
 		if len(p) == 4 {
 			k++
-			if !thorough && k%8 != int(seed%8) {
+			if !thorough && k%16 != int(seed%16) {
 				continue
 			}
 		}
